@@ -360,7 +360,7 @@ def file_case(ctx, files, spec, report=True):
     return lit, failed
 
 
-VARIANTS = ["same", "samples", "samples1", "padding", "vp-other", "vp-size", "vp-exc", "pcm", "picnum",
+VARIANTS = ["same", "samples", "samples1", "fullrange", "constdelta", "padding", "vp-other", "vp-size", "vp-exc", "pcm", "picnum",
             "nometa_a", "nometa_b", "nometa_a+samples", "nometa_b+picnum", "nometa_both",
             "noraw_a", "noraw_b", "short_a", "short_b", "long_a", "long_b", "empty_b"]
 
@@ -385,6 +385,22 @@ def make_pair(spec_a, variant, vseed):
         w, h, depth, bps = expected_dims(vp_b, pcm_b)["Y"]
         y, x = r.randrange(h), r.randrange(w)
         pic_b["Y"][y][x] ^= 1 << (depth - 1)
+    if "fullrange" in base or "constdelta" in base:
+        # structured differences: EVERY sample of some components differs, by the full range (0 vs 2^depth-1,
+        # either way round per sample: the error energy is then exactly the peak energy) or by one constant
+        # delta; the other components are identical.  Summary statistics of such pairs take special values.
+        dims = expected_dims(vp_b, pcm_b)
+        chosen = [c for c in COMPONENTS if r.random() < 0.5] or [r.choice(COMPONENTS)]
+        for c in chosen:
+            w, h, depth, bps = dims[c]
+            top = (1 << depth) - 1
+            delta = top if "fullrange" in base else r.choice([1, top, max(1, top // 2), r.randint(1, top)])
+            mixed = r.random() < 0.5
+            for y in range(h):
+                for x in range(w):
+                    up = (not mixed) or r.random() < 0.5
+                    lo = r.randint(0, top - delta) if "constdelta" in base else 0
+                    pic_a[c][y][x], pic_b[c][y][x] = (lo, lo + delta) if up else (lo + delta, lo)
     if "samples" in base or "samples1" in base:
         dims = expected_dims(vp_b, pcm_b)
         k = 1 if "samples1" in base else r.randint(1, 6)
@@ -540,7 +556,7 @@ def compare_case(ctx, files, spec, report=True):
     return lit, failed
 
 
-DIR_VARIANTS = ["same", "same", "samples", "samples1", "padding", "vp-other", "vp-size", "pcm", "picnum"]
+DIR_VARIANTS = ["same", "same", "samples", "samples1", "fullrange", "padding", "vp-other", "vp-size", "pcm", "picnum"]
 
 
 def dir_case(ctx, files, spec, report=True):
@@ -675,7 +691,7 @@ def run(ctx):
     # ---- compare cases ----------------------------------------------------------------------
     n_cmp = ctx.pick(260, 5000)
     for i in range(n_cmp):
-        v = VARIANTS[i % len(VARIANTS)] if i < 3 * len(VARIANTS) else rng.choice(VARIANTS + ["samples", "same", "padding", "samples1"])
+        v = VARIANTS[i % len(VARIANTS)] if i < 3 * len(VARIANTS) else rng.choice(VARIANTS + ["samples", "same", "padding", "samples1", "fullrange", "constdelta"])
         dl = (i % 64) + 1 if i < 128 else None
         specs.append(("compare", {"a": gen_format_spec(rng, depth_l=dl, max_samples=8), "variant": v, "vseed": rng.randrange(1 << 30)}))
     # ---- directory cases --------------------------------------------------------------------
